@@ -1,16 +1,18 @@
 import BvaProofs.Refine
 import BvaProofs.Fmt
+import BvaProofs.Dec
 /-!
 # C14 — text formatting matches Rust's formatting of the same unsigned integer
 
 bva's `Binary`/`Octal`/`LowerHex`/`UpperHex`/`Display` impls compute a digit string and hand it to
 `Formatter::pad_integral(true, prefix, digits)` — the same std routine, with the same arguments, that
 formats primitive integers.  `Api.digits v kind` is that digit string.
-PROVED here: for `{:b}`, `{:o}`, `{:x}`, `{:X}` the digit string is the canonical numeral of the value
-(minimal digits, `"0"` for zero-valued and empty vectors), hence depends on the value only.
-NOT proved here: `{}` (decimal, through repeated `div_rem` by ten — see C02) and the behaviour of
-`pad_integral` under `#`, `+`, `0`, width, fill, alignment (std, trusted; compared against
-`format!` of a `u128` by the correspondence check).
+PROVED here: for `{:b}`, `{:o}`, `{:x}`, `{:X}` and `{}` (decimal, through repeated `div_rem` by ten) the digit
+string is the canonical numeral of the value (minimal digits, `"0"` for zero-valued and empty vectors), hence
+depends on the value only; and the whole formatted string is `padIntegral spec prefix digits`, where
+`Api.padIntegral` is a model of std's `Formatter::pad_integral` written from its source.
+NOT proved: that `Api.padIntegral` *is* std's routine (trusted; the correspondence check compares whole strings under
+26 format specs × 5 traits with the model, and with `format!` of the same value as a `u128` when it fits).
 -/
 namespace Bva
 
@@ -39,6 +41,31 @@ theorem C14_digits (v : Vec) (hv : v.Inv) :
     | dynamic s =>
       exact ⟨Raw.binDigits_eq s (by decide) hv, Raw.octDigits_eq s (by decide) hv,
         Raw.hexDigits_eq s (by decide) ⟨16, rfl⟩ hv false, Raw.hexDigits_eq s (by decide) ⟨16, rfl⟩ hv true⟩
+
+/-- decimal (`Display`): the digit string produced by the repeated-division loop is the canonical decimal numeral
+(`N ≥ 1`: `Bvf<I,0>` is outside the scope) -/
+theorem C14_decimal (v : Vec) (hv : v.Inv) (hN : match v with | .f _ s => 1 ≤ s.data.size | _ => True) :
+    Api.digits v 'd' = BV.numeral 10 false v.abs.val := by
+  cases v with
+  | f w s => exact Bvf.decDigits_eq_wok s hv.1 hN hv.2
+  | d s => exact Bvd.decDigits_eq s hv
+  | a c => exact Bv.decDigits_eq c (by cases c <;> exact hv)
+
+/-- the whole output string under any format spec is `pad_integral` applied to the canonical numeral, so it depends
+on the value only — for all five traits -/
+theorem C14_format (v : Vec) (hv : v.Inv) (hN : match v with | .f _ s => 1 ≤ s.data.size | _ => True)
+    (k : Char) (hk : k = 'b' ∨ k = 'o' ∨ k = 'x' ∨ k = 'X' ∨ k = 'd') (sp : Api.FmtSpec) :
+    Api.format v k sp = Api.padIntegral sp (Api.fmtPrefix k)
+      (BV.numeral (if k = 'b' then 2 else if k = 'o' then 8 else if k = 'd' then 10 else 16) (k == 'X') v.abs.val) := by
+  have a := C14_digits v hv
+  have d := C14_decimal v hv hN
+  unfold Api.format
+  rcases hk with rfl | rfl | rfl | rfl | rfl
+  · rw [a.1]; rfl
+  · rw [a.2.1]; rfl
+  · rw [a.2.2.1]; rfl
+  · rw [a.2.2.2]; rfl
+  · rw [d]; rfl
 
 /-- the canonical numeral: `"0"` for zero, otherwise no leading zero; only valid digits; it evaluates back to
 the value; distinct values give distinct strings — for every base 2..16 -/
